@@ -939,7 +939,8 @@ static sexp sexp_restore_stack (sexp ctx, sexp saved) {
 #define _WORD2 ((sexp*)ip)[2]
 
 #define sexp_raise(msg, args)                                       \
-  do {sexp_context_top(ctx) = top+1;                                \
+  do {stack[top] = SEXP_VOID;   /* args may allocate: don't expose a stale slot to the gc */ \
+      sexp_context_top(ctx) = top+1;                                \
       stack[top] = args;                                            \
       stack[top] = sexp_user_exception(ctx, self, msg, stack[top]); \
       top++;                                                        \
